@@ -58,15 +58,10 @@ pub fn next_solution_append<'a>(bip: BuiltInPredicate,
                 Unifiable::SFunction{name: _, terms: _} |
                 Unifiable::SComplex(_) => { out_terms.push(t); },
                 Unifiable::SLinkedList{term: _, next: _, count: _, tail_var: _} => {
-                    let mut list = t;
-                    loop {
-                        if let Unifiable::SLinkedList{term, next,
-                                          count: _, tail_var: _} = list {
-                            if *term == Unifiable::Nil { break; }
-                            out_terms.push(*term);
-                            list = *next;
-                        }
-                    }
+                    // Collect the terms of the list. (A bound tail
+                    // variable is followed to the rest of the list.)
+                    let mut list_terms = get_terms(&t, ss);
+                    out_terms.append(&mut list_terms);
                 },
                 // LogicVar was dealt with above.
                 Unifiable::LogicVar{id: _, name: _} => {},
